@@ -85,6 +85,10 @@ def gen(tier, rng, harness=None, driver=None):
             for ents in (["X:" + x, g, g], [g, "X:" + x, g], ["G:u", "X:" + x, g, "X:" + x, "F:u"]):
                 lines.append("num.mod " + " ".join(ents))
                 lines.append("!num.modok " + " ".join(ents))
+    from . import localgen
+    from .modprops import hx
+    for kind, text in localgen.zero_spellings():
+        lines.append("!mod.mustfail - %s" % hx(text))
     if tier == "thorough":
         forms = ["P:i", "P:n", "B:i", "B:n", "V:n", "S", "C", "R", "IV"]
         for k in range(1, 6):
